@@ -7,8 +7,9 @@ package recordstore
 // C06: a record path is only instantiated with a validated path name.
 
 //@ func FindSegments
-//@   property C06
+//@   property C06, C28
 //@   safety -all
+//@   assumed-ensures [success-returns-at-least-one-segment] result1 == nil ==> len(result0) >= 1
 //@   assert-call strings.ReplaceAll: old == "%path" ==> validName(new)
 
 // C30: the directory walk keeps a regular file iff its name decodes against the record path of this path and,
@@ -32,3 +33,4 @@ package recordstore
 //@   property C31
 //@   safety -all
 //@   requires [start-in-local-zone] p.Start.loc == localLoc()
+
